@@ -12,7 +12,7 @@ THEOREMS = ["TLVerif.Props.C02." + t for t in [
 def run(c):
     if MODULES:
         c.lean(MODULES, THEOREMS, sources=["TLVerif.Codec.TL1", "TLVerif.Codec.TL1Canon", "TLVerif.Codec.TL1Wf"])
-    model, hcodec, schemas = cc.prepare(c)
+    model, hcodec, schemas = cc.prepare(c, cc.corpus(c) + cc.random_schemas(c, 2 if not c.thorough else 8))
     rng = c.rng
     for sc in schemas:
         cc.certificates(c, model, sc)
